@@ -647,7 +647,12 @@ def find(obj, lookup_list, rrel_tree, obj_cls=None, split_string=".", use_proxy=
     if type(res) is tuple:
         # full path is in res[1]
         if use_proxy:
-            return ReferenceProxy(res[1])
+            path = res[1]
+            if not path or path[-1] is not res[0]:
+                # The expression continues after the last named element:
+                # the resolved object is always the last entry of the path.
+                path = path + [res[0]]
+            return ReferenceProxy(path)
         else:
             return res[0]
     else:
